@@ -16,6 +16,13 @@ which counts as 'tie broken'):
                        the constructor calls)                                           (ast)
   ford/templates/base.html, index.html   every href into lists/ or at project.X[0].get_url(),
                        with the conjunction of the enclosing {% if %} tests        (Jinja2 AST)
+
+Round 5: facts that are *behaviour* are probed on the real callables instead of being read off their source text:
+  the registered `relurl` filter (relpath against the page directory, resolved-href search, reuse key), `normalise_path`,
+  the Jinja test `more_than_one`, PagetreePage.writeout (which copies appear where for an index / a non-index page),
+  which Markdown conversions of a real `ford.main` run start from a reset converter; PARA_CAPTURE_RE is compared by parse
+  tree; the list-page conditions of Documentation.__init__ are read by a small symbolic walk (local names, one-line
+  helpers, a loop or comprehension over a literal (condition, class) table).
 """
 from __future__ import annotations
 
@@ -87,6 +94,10 @@ def py_nexpr(n):
 
 
 def py_cond(n):
+    if isinstance(n, ast.Call) and ast.unparse(n.func) == "bool" and len(n.args) == 1 and not n.keywords:
+        return py_cond(n.args[0])      # `bool(x)` is the test `if x:` performs
+    if isinstance(n, ast.Constant) and isinstance(n.value, bool):
+        return ("tt",) if n.value else ("not", ("tt",))
     if isinstance(n, ast.BoolOp):
         op = "and" if isinstance(n.op, ast.And) else "or"
         out = py_cond(n.values[0])
@@ -131,6 +142,212 @@ def _func(tree, cls, name):
     raise LookupError(f"{cls}.{name} not found")
 
 
+# ----------------------------------------------------------------- which list pages are made, and when
+
+class _Subst(ast.NodeTransformer):
+    """replace loaded names by the expressions they are bound to"""
+
+    def __init__(self, env):
+        self.env = env
+
+    def visit_Name(self, n):
+        if isinstance(n.ctx, ast.Load) and n.id in self.env:
+            return self.env[n.id]
+        return n
+
+
+def _subst(node, env):
+    import copy
+    return _Subst(env).visit(copy.deepcopy(node)) if env else node
+
+
+def _bind(target, value, env):
+    """bind the names of an assignment / loop target to (already substituted) value expressions"""
+    if isinstance(target, ast.Name):
+        env[target.id] = value
+        return True
+    if isinstance(target, (ast.Tuple, ast.List)) and isinstance(value, (ast.Tuple, ast.List)) and len(target.elts) == len(value.elts):
+        return all(_bind(t, v, env) for t, v in zip(target.elts, value.elts))
+    return False
+
+
+def _inline_helpers(node, tree, depth=0):
+    """`self.helper(args)` / `helper(args)` whose body is a single `return <expr>`: replaced by that expression with
+    the parameters substituted (so that a condition moved into a small helper is still read)."""
+    funcs = {}
+    for n in tree.body:
+        if isinstance(n, ast.FunctionDef):
+            funcs[("", n.name)] = n
+        if isinstance(n, ast.ClassDef) and n.name == "Documentation":
+            for f in n.body:
+                if isinstance(f, ast.FunctionDef):
+                    funcs[("self", f.name)] = f
+
+    class T(ast.NodeTransformer):
+        def visit_Call(self, c):
+            self.generic_visit(c)
+            key = None
+            if isinstance(c.func, ast.Name):
+                key = ("", c.func.id)
+            elif isinstance(c.func, ast.Attribute) and isinstance(c.func.value, ast.Name) and c.func.value.id == "self":
+                key = ("self", c.func.attr)
+            f = funcs.get(key)
+            if f is None or c.keywords or depth > 3:
+                return c
+            body = [b for b in f.body if not (isinstance(b, ast.Expr) and isinstance(b.value, ast.Constant))]
+            params = [a.arg for a in f.args.args]
+            if key[0] == "self" or any(isinstance(d, ast.Name) and d.id in ("staticmethod",) for d in f.decorator_list):
+                params = [a for a in params if a != "self"]
+            if len(body) != 1 or not isinstance(body[0], ast.Return) or body[0].value is None or len(params) != len(c.args) \
+                    or f.args.vararg or f.args.kwarg or f.args.kwonlyargs:
+                return c
+            return _inline_helpers(_subst(body[0].value, dict(zip(params, c.args))), tree, depth + 1)
+
+    import copy
+    return T().visit(copy.deepcopy(node))
+
+
+def _is_lists(n):
+    return ast.unparse(n) == "self.lists"
+
+
+def _list_page_conds(tree, init, fo):
+    """[(out_page, condition, class name)] in the order in which the pages are appended."""
+    out = []
+    sites = []
+
+    def cond_of(test, env):
+        return py_cond(_inline_helpers(_subst(test, env), tree))
+
+    def page_of(call, env, conds, site):
+        call = _subst(call, env)
+        if not (isinstance(call, ast.Call) and isinstance(call.func, ast.Name)):
+            raise LookupError("self.lists gets something that is not `<ListPage class>(...)`: " + ast.unparse(call))
+        cls = call.func.id
+        page = getattr(getattr(fo, cls, None), "out_page", None)
+        if not isinstance(page, str):
+            raise LookupError(f"{cls}.out_page is not a string")
+        out.append((page, conj(conds), cls))
+        sites.append(site)
+
+    def elements(it, env):
+        it = _subst(it, env)
+        if isinstance(it, ast.Call) and ast.unparse(it.func) in ("list", "tuple", "iter") and len(it.args) == 1:
+            it = it.args[0]
+        if isinstance(it, (ast.List, ast.Tuple)):
+            return it.elts
+        return None
+
+    def comprehension(comp, env, conds, site):
+        """[elt for target in table if test] -> one page per table entry"""
+        if len(comp.generators) != 1 or comp.generators[0].is_async:
+            raise LookupError("self.lists: unsupported comprehension " + ast.unparse(comp))
+        g = comp.generators[0]
+        els = elements(g.iter, env)
+        if els is None:
+            raise LookupError("self.lists: comprehension over something that is not a literal table: " + ast.unparse(g.iter))
+        for el in els:
+            env2 = dict(env)
+            if not _bind(g.target, el, env2):
+                raise LookupError("self.lists: cannot bind " + ast.unparse(g.target) + " to " + ast.unparse(el))
+            page_of(comp.elt, env2, conds + [cond_of(t, env2) for t in g.ifs], site)
+
+    def visit(stmts, env, conds):
+        for st in stmts:
+            if isinstance(st, (ast.Assign, ast.AnnAssign, ast.AugAssign)):
+                tgt = st.targets[0] if isinstance(st, ast.Assign) else st.target
+                if _is_lists(tgt):
+                    v = st.value
+                    if isinstance(st, ast.AugAssign) or (v is not None and not (isinstance(v, ast.List) and not v.elts)):
+                        if isinstance(v, (ast.ListComp, ast.GeneratorExp)):
+                            comprehension(v, env, conds, st)
+                        elif isinstance(v, ast.List):
+                            for e in v.elts:
+                                page_of(e, env, conds, st)
+                        else:
+                            raise LookupError("self.lists: unsupported assignment " + ast.unparse(st))
+                    continue
+                if st.value is not None and not isinstance(st, ast.AugAssign):
+                    _bind(tgt, _subst(st.value, env), env)
+                continue
+            if isinstance(st, ast.If):
+                c = cond_of(st.test, env) if _touches_lists(st) else None
+                visit(st.body, dict(env), conds + ([c] if c is not None else []))
+                visit(st.orelse, dict(env), conds + ([("not", c)] if c is not None else []))
+                continue
+            if isinstance(st, ast.For):
+                if not _touches_lists(st):
+                    continue
+                els = elements(st.iter, env)
+                if els is None or st.orelse:
+                    raise LookupError("self.lists is filled in a loop over something that is not a literal table: " + ast.unparse(st.iter))
+                for el in els:
+                    env2 = dict(env)
+                    if not _bind(st.target, el, env2):
+                        raise LookupError("self.lists: cannot bind " + ast.unparse(st.target) + " to " + ast.unparse(el))
+                    visit(st.body, env2, conds)
+                continue
+            if isinstance(st, ast.Try):
+                visit(st.body, env, conds)
+                visit(st.orelse, env, conds)
+                visit(st.finalbody, env, conds)
+                for h in st.handlers:
+                    if _touches_lists(h):
+                        raise LookupError("self.lists is changed in an exception handler")
+                continue
+            if isinstance(st, ast.With):
+                visit(st.body, env, conds)
+                continue
+            if isinstance(st, ast.Expr) and isinstance(st.value, ast.Call) and isinstance(st.value.func, ast.Attribute) \
+                    and _is_lists(st.value.func.value):
+                c = st.value
+                if c.func.attr == "append" and len(c.args) == 1:
+                    page_of(c.args[0], env, conds, st)
+                elif c.func.attr == "extend" and len(c.args) == 1 and isinstance(c.args[0], (ast.ListComp, ast.GeneratorExp)):
+                    comprehension(c.args[0], env, conds, st)
+                elif c.func.attr == "extend" and len(c.args) == 1 and isinstance(c.args[0], (ast.List, ast.Tuple)):
+                    for e in c.args[0].elts:
+                        page_of(e, env, conds, st)
+                else:
+                    raise LookupError("self.lists: unsupported call " + ast.unparse(c))
+                continue
+            if _touches_lists(st) and not isinstance(st, (ast.FunctionDef, ast.Return)):
+                # any other statement that mentions self.lists inside Documentation.__init__ must only read it
+                for n in ast.walk(st):
+                    if isinstance(n, ast.Attribute) and _is_lists(n) and isinstance(n.ctx, ast.Store):
+                        raise LookupError("self.lists: unsupported statement " + ast.unparse(st)[:80])
+                    if isinstance(n, ast.Call) and isinstance(n.func, ast.Attribute) and _is_lists(n.func.value) \
+                            and n.func.attr in ("append", "extend", "insert", "remove", "pop", "clear"):
+                        raise LookupError("self.lists: unsupported statement " + ast.unparse(st)[:80])
+
+    def _touches_lists(node):
+        return any(isinstance(n, ast.Attribute) and _is_lists(n) for n in ast.walk(node))
+
+    visit(init.body, {}, [])
+    # nothing else in the class may change the list
+    n_mut = 0
+    for n in ast.walk(init):
+        if isinstance(n, ast.Call) and isinstance(n.func, ast.Attribute) and _is_lists(n.func.value) \
+                and n.func.attr in ("append", "extend", "insert"):
+            n_mut += 1
+        if isinstance(n, (ast.Assign, ast.AnnAssign, ast.AugAssign)):
+            tgt = n.targets[0] if isinstance(n, ast.Assign) else n.target
+            v = n.value
+            if _is_lists(tgt) and not (isinstance(v, ast.List) and not v.elts and not isinstance(n, ast.AugAssign)):
+                n_mut += 1
+    if n_mut != len({id(x) for x in sites}) or not out:
+        raise LookupError(f"Documentation.__init__: {n_mut} statements fill self.lists, {len({id(x) for x in sites})} of them understood")
+    for c in tree.body:
+        if isinstance(c, ast.ClassDef) and c.name == "Documentation":
+            for f in c.body:
+                if isinstance(f, ast.FunctionDef) and f.name != "__init__":
+                    for n in ast.walk(f):
+                        if isinstance(n, ast.Call) and isinstance(n.func, ast.Attribute) and _is_lists(n.func.value) \
+                                and n.func.attr in ("append", "extend", "insert", "remove", "pop", "clear"):
+                            raise LookupError(f"Documentation.{f.name} changes self.lists")
+    return out
+
+
 # ----------------------------------------------------------------- output.py
 
 def extract_output(repo: Path):
@@ -159,22 +376,10 @@ def extract_output(repo: Path):
     n_map_appends = sum(1 for n in ast.walk(init) if isinstance(n, ast.Call) and ast.unparse(n.func) == "entity_list_page_map.append")
     if n_map_appends != sum(1 for p in page_map if p[1] != ("tt",)):
         raise LookupError("entity_list_page_map.append outside a recognised `if`")
-    # list pages
-    list_conds = []
-    for n in ast.walk(init):
-        if isinstance(n, ast.If) and len(n.body) == 1 and isinstance(n.body[0], ast.Expr):
-            c = n.body[0].value
-            if isinstance(c, ast.Call) and ast.unparse(c.func) == "self.lists.append":
-                if n.orelse:
-                    raise LookupError("list page `if` with else branch")
-                cls = ast.unparse(c.args[0].func)
-                page = getattr(getattr(fo, cls), "out_page")
-                if not isinstance(page, str):
-                    raise LookupError(f"{cls}.out_page is not a string")
-                list_conds.append((page, py_cond(n.test), cls))
-    n_appends = sum(1 for n in ast.walk(init) if isinstance(n, ast.Call) and ast.unparse(n.func) == "self.lists.append")
-    if n_appends != len(list_conds) or not list_conds:
-        raise LookupError(f"{n_appends} self.lists.append calls but {len(list_conds)} recognised conditions")
+    # list pages: every place where Documentation.__init__ puts a page object into `self.lists`, with the condition
+    # under which it does so (see `_list_page_conds`: plain `if`s, a loop / comprehension over a table of
+    # (condition, class) pairs, conditions held in local names or in one-line helper functions)
+    list_conds = _list_page_conds(tree, init, fo)
     # every list page lives in lists/
     lp = _func(tree, "ListPage", "outfile")
     if 'self.out_dir / "lists" / self.out_page' not in ast.unparse(lp).replace("'", '"'):
@@ -195,16 +400,14 @@ def extract_output(repo: Path):
     if not out_dirs:
         raise LookupError("directory list of Documentation.writeout not found")
     # more_than_one
-    mt = _func(tree, None, "is_more_than_one")
-    if ast.unparse(mt.body[-1]) != "return collection > 1":
-        raise LookupError("is_more_than_one is not `collection > 1`")
+    # the `more_than_one` test of the templates (it is applied to `x|length`): probed, not read
+    mt = fo.env.tests.get("more_than_one")
+    if mt is None or [bool(mt(k)) for k in range(6)] != [k > 1 for k in range(6)]:
+        raise LookupError("the Jinja test `more_than_one` is not `n > 1`")
     # BasePage.project_url
     bp = _func(tree, "BasePage", "__init__")
     if "os.path.relpath(proj.settings.project_url, self.outfile.parent)" not in ast.unparse(bp):
         raise LookupError("BasePage.project_url is not relpath(project_url, outfile.parent)")
-    ru = _func(tree, None, "relative_url")
-    if "os.path.relpath(link_path, page_url.parent)" not in ast.unparse(ru):
-        raise LookupError("relative_url does not relpath against page_url.parent")
     return page_map, list_conds, out_dirs
 
 
@@ -606,14 +809,43 @@ def extract_templates(repo: Path):
 
 
 
+def _regex_tree(pattern: str, flags: int):
+    """parse tree of a pattern with layout (re.VERBOSE) and comments gone - the `re` parser drops them itself"""
+    try:
+        import re._parser as sre_parse   # Python >= 3.11
+    except ImportError:  # pragma: no cover
+        import sre_parse
+    return str(sre_parse.parse(pattern, flags))
+
+
+def _same_regex(compiled, want_pattern: str, want_flags: int, what: str):
+    """The compiled object means the same as `want_pattern` with `want_flags`: same parse tree after the `re` parser has
+    stripped verbose layout, same flags apart from VERBOSE / UNICODE; and, as a second opinion, the same answers on all
+    strings up to length 5 over a small alphabet drawn from the pattern."""
+    import itertools
+
+    ign = re.VERBOSE | re.UNICODE
+    if (compiled.flags & ~ign) != ((want_flags | re.compile(want_pattern, want_flags).flags) & ~ign):
+        raise LookupError(f"{what}: flags changed: {compiled.flags}")
+    if _regex_tree(compiled.pattern, compiled.flags) != _regex_tree(want_pattern, want_flags):
+        want = re.compile(want_pattern, want_flags)
+        alphabet = "<p>/x\n"
+        for n in range(0, 6):
+            for tup in itertools.product(alphabet, repeat=n):
+                t = "".join(tup)
+                a, b = compiled.search(t), want.search(t)
+                if (a.span() if a else None) != (b.span() if b else None):
+                    raise LookupError(f"{what} changed: {compiled.pattern!r} differs from {want_pattern!r} on {t!r}")
+        raise LookupError(f"{what} changed: {compiled.pattern!r} (agrees with {want_pattern!r} on short strings, but its parse tree differs)")
+
+
 # ----------------------------------------------------------------- summary / "Read more" link, path normalisation
 
 def extract_readmore(repo: Path):
     """Shape of the summary rule and of the "Read more" link in FortranBase.markdown (ford/sourceform.py)."""
     import ford.sourceform as sf
 
-    if sf.PARA_CAPTURE_RE.pattern != r"<p>.*?</p>":
-        raise LookupError("PARA_CAPTURE_RE changed: " + sf.PARA_CAPTURE_RE.pattern)
+    _same_regex(sf.PARA_CAPTURE_RE, r"<p>.*?</p>", re.IGNORECASE | re.DOTALL, "PARA_CAPTURE_RE")
     tree = ast.parse((repo / "ford" / "sourceform.py").read_text())
     fn = _func(tree, "FortranBase", "markdown")
     for name, cls in vars(sf).items():
@@ -630,7 +862,7 @@ def extract_readmore(repo: Path):
             chain = n
     if chain is None or len(chain.body) != 1 or len(chain.orelse) != 1 or not isinstance(chain.orelse[0], ast.If):
         raise LookupError("FortranBase.markdown: `if self.meta.summary is not None` chain has an unexpected shape")
-    if not ast.unparse(chain.body[0]).startswith("self.meta.summary = md.convert("):
+    if not re.match(r"self\.meta\.summary = md(\.reset\(\))?\.convert\(", ast.unparse(chain.body[0])):
         raise LookupError("FortranBase.markdown: explicit summary is not md.convert(...)")
     el = chain.orelse[0]
     if ast.unparse(el.test) != "(paragraph := PARA_CAPTURE_RE.search(self.doc))" or len(el.body) != 1 or len(el.orelse) != 1:
@@ -669,41 +901,192 @@ def extract_readmore(repo: Path):
     return {"summary_rule": rule, "link_needs_url": needs_url}
 
 
+_PROBE_N = [0]
+
+
+def probe_relurl_filter():
+    """What the registered `relurl` filter does, observed on the real callable (whatever it is called, however it is split
+    into helpers): (a) an absolute href below the root is replaced by `relpath(href, directory of the page)`;
+    (b) whether it searches the text for the *resolved* href (then an href that reaches its target through a symbolic
+    link is left alone) or for the href as written; (c) which part of the page's location an earlier result is reused
+    by - sequences of two calls with the same text on pages that agree in one component of their path only."""
+    import os
+    import shutil
+    import tempfile
+    import ford.output as fo
+
+    filt = fo.env.filters.get("relurl")
+    if filt is None:
+        raise LookupError("no Jinja filter `relurl` is registered")
+    tmp = Path(os.path.realpath(tempfile.mkdtemp(prefix="ford-c09-probe-")))
+    try:
+        (tmp / "real" / "doc").mkdir(parents=True)
+        os.symlink(tmp / "real", tmp / "work", target_is_directory=True)
+        root = tmp / "real" / "doc"
+
+        def call(root_, tgt, page):
+            href = f"{root_}/{tgt}"
+            res = str(filt(f"<a href='{href}'>x</a>", root / page))
+            m = re.fullmatch(r"<a href='([^']*)'>x</a>", res)
+            return m.group(1) if m else res
+
+        def fresh():
+            _PROBE_N[0] += 1
+            return f"zz{os.getpid()}x{_PROBE_N[0]}/t.html"
+
+        # (a)
+        for page in ("index.html", "lists/files.html", "page/sub/deeper/last.html"):
+            tgt = fresh()
+            got, want = call(root, tgt, page), os.path.relpath(f"{root}/{tgt}", (root / page).parent)
+            if got != want:
+                raise LookupError(f"the relurl filter gives {got!r} for a link to {tgt} on {page}; expected {want!r}")
+        # (b) href through the symbolic link, page addressed by its real location
+        tgt = fresh()
+        via = tmp / "work" / "doc"
+        got = call(via, tgt, "lists/files.html")
+        if got == f"{via}/{tgt}":
+            resolves = True
+        elif got == os.path.relpath(f"{via}/{tgt}", root / "lists"):
+            resolves = False
+        else:
+            raise LookupError(f"the relurl filter turns an href that crosses a symbolic link into {got!r}")
+        # (c)
+        groups = {
+            "dirName": [("page/dev/examples/index.html", "page/examples/first.html"), ("page/a/x/i.html", "page/b/c/x/j.html"),
+                        ("module/m.html", "page/module/index.html")],
+            "fileName": [("page/a/index.html", "page/b/c/index.html"), ("index.html", "page/index.html")],
+            "neither": [("proc/x.html", "page/sub/y.html"), ("lists/files.html", "index.html")],
+        }
+        wrong = {}
+        for g, pairs in groups.items():
+            bad = 0
+            for a, b in pairs:
+                tgt = fresh()
+                first, second = call(root, tgt, a), call(root, tgt, b)
+                if first != os.path.relpath(f"{root}/{tgt}", (root / a).parent):
+                    raise LookupError(f"the relurl filter gives {first!r} for a link to {tgt} on {a}")
+                bad += second != os.path.relpath(f"{root}/{tgt}", (root / b).parent)
+            wrong[g] = (bad, len(pairs))
+        none = all(b == 0 for b, _n in wrong.values())
+        allbad = {g: b == n for g, (b, n) in wrong.items()}
+        if none:
+            key = "none"
+        elif allbad["dirName"] and wrong["fileName"][0] == 0 and wrong["neither"][0] == 0:
+            key = "dirName"
+        elif allbad["fileName"] and wrong["dirName"][0] == 0 and wrong["neither"][0] == 0:
+            key = "fileName"
+        elif all(allbad.values()):
+            key = "textOnly"
+        else:
+            raise LookupError(f"the relurl filter reuses earlier results in a way that is not understood: wrong second results {wrong}")
+    finally:
+        shutil.rmtree(tmp, ignore_errors=True)
+    return {"relurl_resolves": resolves, "memo_key": key}
+
+
+def probe_normalise_path():
+    """`ford.utils.normalise_path` on a directory reached through a symbolic link: dereferenced or kept?"""
+    import os
+    import shutil
+    import tempfile
+    from ford.utils import normalise_path
+
+    tmp = Path(os.path.realpath(tempfile.mkdtemp(prefix="ford-c09-probe-")))
+    try:
+        (tmp / "real" / "doc").mkdir(parents=True)
+        os.symlink(tmp / "real", tmp / "work", target_is_directory=True)
+        modes = set()
+        for rel in ("doc", "./doc", "../work/doc", "doc/../doc"):
+            got = str(normalise_path(tmp / "work", rel))
+            if got == str(tmp / "real" / "doc"):
+                modes.add("resolve")
+            elif os.path.normpath(got) == str(tmp / "work" / "doc"):
+                # (`.absolute()` alone does not even collapse `..`; for the link mechanism it is the same case: links kept)
+                modes.add("abspath")
+            else:
+                raise LookupError(f"normalise_path({tmp / 'work'}, {rel!r}) = {got}")
+        if len(modes) != 1:
+            raise LookupError(f"normalise_path treats symbolic links inconsistently: {sorted(modes)}")
+    finally:
+        shutil.rmtree(tmp, ignore_errors=True)
+    return modes.pop()
+
+
 def extract_relurl(repo: Path):
-    """How ford.utils.normalise_path tidies a path setting, what relative_url searches for in the link text,
-    and where project_url comes from in relative mode."""
-    tree = ast.parse((repo / "ford" / "utils.py").read_text())
-    fn = _func(tree, None, "normalise_path")
-    body = [b for b in fn.body if not (isinstance(b, ast.Expr) and isinstance(b.value, ast.Constant))]
-    if len(body) != 1 or not isinstance(body[0], ast.Return):
-        raise LookupError("normalise_path: expected a single return statement")
-    ret = ast.unparse(body[0].value)
-    joined = "base_dir / os.path.expandvars(path)"
-    if ret == f"({joined}).absolute().resolve()" or ret == f"({joined}).resolve()":
-        mode = "resolve"
-    elif ret in (f"pathlib.Path(os.path.abspath({joined}))", f"pathlib.Path(os.path.normpath(({joined}).absolute()))",
-                 f"({joined}).absolute()"):
-        # (`.absolute()` alone does not even collapse `..`; for the link mechanism it is the same case: links kept)
-        mode = "abspath"
-    else:
-        raise LookupError("normalise_path: unsupported return expression: " + ret)
-    tree = ast.parse((repo / "ford" / "output.py").read_text())
-    ru = ast.unparse(_func(tree, None, "relative_url"))
-    if "link_path = str(pathlib.Path(link_href).resolve())" in ru:
-        resolves = True
-    elif "link_path = link_href" in ru or "link_path = str(link_href)" in ru:
-        resolves = False
-    else:
-        raise LookupError("relative_url: assignment to link_path has an unsupported shape")
-    if "return link_str.replace(link_path, new_path)" not in ru:
-        raise LookupError("relative_url no longer returns link_str.replace(link_path, new_path)")
+    """How ford.utils.normalise_path tidies a path setting, what the relurl filter searches for in the link text and what
+    it reuses (all three probed on the real callables), and where project_url comes from in relative mode."""
+    mode = probe_normalise_path()
+    pr = probe_relurl_filter()
+    resolves = pr["relurl_resolves"]
     tree = ast.parse((repo / "ford" / "settings.py").read_text())
     np_ = ast.unparse(_func(tree, "ProjectSettings", "normalise_paths"))
     if "setattr(self, key, normalise_path(self.directory, value))" not in np_:
         raise LookupError("ProjectSettings.normalise_paths no longer puts Path settings through normalise_path")
     if "if self.relative:\n        self.project_url = self.output_dir" not in np_:
         raise LookupError("ProjectSettings.normalise_paths: project_url is not output_dir in relative mode")
-    return {"normalise_mode": mode, "relurl_resolves": resolves}
+    return {"normalise_mode": mode, "relurl_resolves": resolves, "memo_key": pr["memo_key"]}
+
+
+# ----------------------------------------------------------------- which conversions start from a reset Markdown converter
+
+MD_SITES = {"C09PROBEPROJDOCS": "projectDocs", "C09PROBEENTITYDOC": "entityDoc", "C09PROBEENTITYSUMMARY": "entitySummary",
+            "C09PROBEPROJSUMMARY": "projectSummary", "C09PROBEAUTHORDESC": "authorDescription", "C09PROBESTATICPAGE": "staticPage"}
+
+
+def extract_mdreset(repo: Path):
+    """Run the real pipeline (`ford.main`) on a six-text project with a probe on `MetaMarkdown.convert`: after every
+    conversion a marker footnote is put into the converter's footnote table; a conversion that still finds the marker did
+    not start from a reset converter.  Which function does the resetting (FortranBase.markdown, the loop of
+    Project.markdown, a helper) does not matter - only whether the text converted before can show through."""
+    import shutil
+    import tempfile
+    import ford._markdown as fm
+    from markdown.extensions.footnotes import FootnoteExtension
+    from harness import e2e
+
+    seen: dict[str, list[bool]] = {}
+    orig = fm.MetaMarkdown.convert
+
+    def convert(self, source, *a, **kw):
+        ext = next((e for e in getattr(self, "registeredExtensions", []) if isinstance(e, FootnoteExtension)), None)
+        if ext is None:
+            raise LookupError("the Markdown converter has no footnote extension")
+        clean = "c09-probe-marker" not in ext.footnotes
+        flat = source.replace("\n", "")   # (`"\\n".join(summary)` of the unchanged code puts every character on a line of its own)
+        for mark, site in MD_SITES.items():
+            if mark in flat:
+                seen.setdefault(site, []).append(clean)
+        r = orig(self, source, *a, **kw)
+        if source.strip():   # (a blank text is returned as "" without running any processor: it leaves nothing behind)
+            ext.setFootnote("c09-probe-marker", "left in the table by the text converted before")
+        return r
+
+    files = {"a.f90": "module c09probe_a\n  !! summary: C09PROBEENTITYSUMMARY\n  !!\n  !! C09PROBEENTITYDOC one\n"
+                      "contains\n  subroutine c09probe_s()\n    !! C09PROBEENTITYDOC two\n  end subroutine c09probe_s\n"
+                      "end module c09probe_a\n",
+             "b.f90": "module c09probe_b\n  !! summary: C09PROBEENTITYSUMMARY\n  !!\n  !! C09PROBEENTITYDOC three\n"
+                      "  integer :: v\n    !! C09PROBEENTITYDOC four\nend module c09probe_b\n"}
+    opts = {"summary": "C09PROBEPROJSUMMARY", "author": "A", "author_description": "C09PROBEAUTHORDESC",
+            "quiet": "true", "warn": "false", "parallel": "0"}
+    pages = {"index.md": "title: T\n\nC09PROBESTATICPAGE one\n", "second.md": "title: S\n\nC09PROBESTATICPAGE two\n",
+             "sub/index.md": "title: U\n\nC09PROBESTATICPAGE three\n"}
+    tmp = Path(tempfile.mkdtemp(prefix="ford-c09-mdprobe-"))
+    fm.MetaMarkdown.convert = convert
+    try:
+        pf = e2e.write_project(tmp / "proj", files, opts, text="C09PROBEPROJDOCS\n", pages=pages)
+        r = e2e.run_inprocess(pf)
+    finally:
+        fm.MetaMarkdown.convert = orig
+        shutil.rmtree(tmp, ignore_errors=True)
+    if r["rc"] != 0:
+        raise LookupError(f"probe of the Markdown conversions: ford failed on the probe project: {r['exc']}")
+    want = {"projectDocs": 1, "entityDoc": 4, "entitySummary": 2, "projectSummary": 1, "authorDescription": 1, "staticPage": 3}
+    for site, n in want.items():
+        if len(seen.get(site, [])) != n:
+            raise LookupError(f"probe of the Markdown conversions: {len(seen.get(site, []))} conversions at site {site}, expected {n}")
+    # every conversion at the site starts clean / only the first one does (a reset in front of a loop) / neither
+    return {"md_resets": [site for site in want if all(seen[site])],
+            "md_resets_first": [site for site in want if len(seen[site]) > 1 and seen[site][0] and not any(seen[site][1:])]}
 
 
 # ----------------------------------------------------------------- assets: `{{ project_url }}/<path>` links vs Documentation.writeout
@@ -1055,97 +1438,68 @@ def extract_aliases(repo: Path):
     return aliases, (page_dir, ("user",), ("tt",), "PagetreePage.outfile = self.page_dir / self.obj.path; copies of page_dir below it")
 
 
-INDEX_TEST = "self.obj.filename.stem == 'index'"
-NONINDEX_TEST = "self.obj.filename.stem != 'index'"
+def probe_pagecopy():
+    """What PagetreePage.writeout really writes for an index page and for another page of a directory that has a
+    `copy_subdir` directory (with a nested file) and a plain file: observed on a real object of the class (only `render`
+    is stubbed) in a scratch tree.  -> (guard of the copy_subdir copies, guard of the file copies); everything written must
+    be where the model puts it: <out>/page/<location>/<stem>.html, <out>/page/<location>/<dir>/..., <out>/page/<location>/<file>."""
+    import os
+    import shutil
+    import tempfile
+    from types import SimpleNamespace
+    import ford.output as fo
+    from ford.settings import EntitySettings
 
+    class _Probe(fo.PagetreePage):
+        def render(self, data, proj, obj):
+            return "<html></html>"
 
-def _guard_atom(test):
-    t = ast.unparse(test)
-    if t == INDEX_TEST:
-        return "index"
-    if t == NONINDEX_TEST:
-        return "nonindex"
-    if isinstance(test, ast.UnaryOp) and isinstance(test.op, ast.Not):
-        inner = _guard_atom(test.operand)
-        return {"index": "nonindex", "nonindex": "index"}.get(inner, "unknown")
-    return "unknown"
+    ran = {"copy": {}, "files": {}}
+    tmp = Path(os.path.realpath(tempfile.mkdtemp(prefix="ford-c09-pageprobe-")))
+    try:
+        src = tmp / "pages"
+        (src / "sub" / "figs" / "deep").mkdir(parents=True)
+        (src / "sub" / "figs" / "a.png").write_bytes(b"a")
+        (src / "sub" / "figs" / "deep" / "b.csv").write_bytes(b"b")
+        (src / "sub" / "notes.txt").write_bytes(b"n")
+        for stem in ("index", "other"):
+            out = tmp / ("doc_" + stem)
+            (out / "page").mkdir(parents=True)
+            if stem != "index":
+                (out / "page" / "sub").mkdir()      # made when the directory's index page is written
+            obj = SimpleNamespace(filename=Path(stem), location=Path("sub"), path=Path("sub") / f"{stem}.html", copy_subdir=["figs"],
+                                  files=["notes.txt"], meta=EntitySettings(), obj="page", name=stem)
+            proj = SimpleNamespace(settings=SimpleNamespace(project_url=out))
+            page = _Probe({"output_dir": out, "page_dir": src, "relative": True}, proj, obj)
+            page.writeout()
+            got = sorted(str(f.relative_to(out)) for f in out.rglob("*") if f.is_file())
+            html, copies, plain = f"page/sub/{stem}.html", ["page/sub/figs/a.png", "page/sub/figs/deep/b.csv"], "page/sub/notes.txt"
+            if html not in got:
+                raise LookupError(f"PagetreePage.writeout: the page is not written to <out>/{html}: {got}")
+            ran["copy"][stem] = all(c in got for c in copies)
+            ran["files"][stem] = plain in got
+            extra = [g for g in got if g != html and g not in copies and g != plain]
+            if extra or (any(c in got for c in copies) and not ran["copy"][stem]):
+                raise LookupError(f"PagetreePage.writeout writes {extra or got} - not the copies <out>/page/<location>/<item> of the model")
+    finally:
+        shutil.rmtree(tmp, ignore_errors=True)
 
+    def guard(r):
+        return {(True, True): "always", (True, False): "indexOnly", (False, True): "nonIndexOnly", (False, False): "never"}[(r["index"], r["other"])]
 
-def _guard_join(atoms):
-    """conjunction of atoms -> always / indexOnly / nonIndexOnly / never"""
-    s = set(atoms)
-    if "unknown" in s or "never" in s or ("index" in s and "nonindex" in s):
-        return "never"   # a guard that is not understood is treated as "may not run": the theorem then fails
-    if "index" in s:
-        return "indexOnly"
-    if "nonindex" in s:
-        return "nonIndexOnly"
-    return "always"
+    return guard(ran["copy"]), guard(ran["files"])
 
 
 def extract_pagecopy(repo: Path):
-    """Under which guard PagetreePage.writeout runs its two copy loops (`copy_subdir` directories, `files`), as a function
-    of "this page is the index page of its directory"; the statements inside the loops are pinned."""
-    tree = ast.parse((repo / "ford" / "output.py").read_text())
-    fn = _func(tree, "PagetreePage", "writeout")
-    found = {}
-
-    def ends_with_exit(body):
-        return bool(body) and isinstance(body[-1], (ast.Return, ast.Raise))
-
-    def visit(stmts, atoms):
-        atoms = list(atoms)
-        for s in stmts:
-            if isinstance(s, ast.If):
-                a = _guard_atom(s.test)
-                neg = {"index": "nonindex", "nonindex": "index"}.get(a, "unknown")
-                visit(s.body, atoms + [a])
-                visit(s.orelse, atoms + [neg])
-                if ends_with_exit(s.body) and not ends_with_exit(s.orelse):
-                    atoms.append(neg)      # what follows only runs when the test was false
-                elif ends_with_exit(s.orelse) and not ends_with_exit(s.body):
-                    atoms.append(a)
-                elif any(isinstance(x, (ast.Return, ast.Raise)) for x in ast.walk(s)):
-                    atoms.append("unknown")
-            elif isinstance(s, ast.For):
-                it = ast.unparse(s.iter)
-                if it in ("self.obj.copy_subdir", "self.obj.files"):
-                    if it in found:
-                        raise LookupError(f"PagetreePage.writeout: two loops over {it}")
-                    found[it] = (_guard_join(atoms), "\n".join(ast.unparse(x) for x in s.body))
-                else:
-                    visit(s.body, atoms + ["unknown"])
-            elif isinstance(s, (ast.Return, ast.Raise)):
-                atoms.append("never")
-            elif isinstance(s, (ast.Try, ast.With, ast.While)):
-                for body in (getattr(s, "body", []), getattr(s, "orelse", []), getattr(s, "finalbody", [])):
-                    visit(body, atoms + ([] if isinstance(s, ast.With) else ["unknown"]))
-    visit(fn.body, [])
-    if set(found) != {"self.obj.copy_subdir", "self.obj.files"}:
-        raise LookupError("PagetreePage.writeout: the loops over self.obj.copy_subdir / self.obj.files were not found")
-    text = ast.unparse(fn)
-    for want in ("from_path = self.data['page_dir'] / self.obj.location", "to_path = self.page_dir / self.obj.location",
-                 "super(PagetreePage, self).writeout()"):
-        if want not in text:
-            raise LookupError("PagetreePage.writeout: statement changed: " + want)
-    cbody = found["self.obj.copy_subdir"][1]
-    if "item_path = from_path / item" not in cbody or "copytree(item_path, to_path / item)" not in cbody:
-        raise LookupError("PagetreePage.writeout: the copy_subdir loop no longer does copytree(from_path / item, to_path / item)")
-    fbody = found["self.obj.files"][1]
-    if "item_path = from_path / item" not in fbody or "shutil.copy(item_path, to_path)" not in fbody:
-        raise LookupError("PagetreePage.writeout: the files loop no longer does shutil.copy(from_path / item, to_path)")
-    pt = _func(tree, "PagetreePage", "outfile")
-    if "return self.page_dir / self.obj.path" not in ast.unparse(pt):
-        raise LookupError("PagetreePage.outfile is not page_dir / obj.path")
-    bp = ast.unparse(_func(tree, "BasePage", "__init__"))
-    if "self.page_dir = self.out_dir / 'page'" not in bp:
-        raise LookupError("BasePage.page_dir is not out_dir / 'page'")
+    """For which pages PagetreePage.writeout copies the `copy_subdir` directories / the plain files of the page directory -
+    probed on the real method (renamed locals, reordered statements, helpers do not matter; what is written where does)."""
+    copy_guard, files_guard = probe_pagecopy()
     # PageNode: copy_subdir of the page itself first, the project setting as the fall-back
     ptree = ast.parse((repo / "ford" / "pagetree.py").read_text())
     pn = ast.unparse(_func(ptree, "PageNode", "__init__"))
     if "self.copy_subdir = self.meta.copy_subdir or proj_copy_subdir" not in pn:
         raise LookupError("PageNode.copy_subdir is no longer `meta.copy_subdir or proj_copy_subdir`")
-    return {"copy_guard": found["self.obj.copy_subdir"][0], "files_guard": found["self.obj.files"][0]}
+    return {"copy_guard": copy_guard, "files_guard": files_guard}
 
 
 def lpieces(ps) -> str:
@@ -1169,6 +1523,7 @@ def extract(repo: Path | None = None) -> dict:
     vis.update(extract_readmore(repo))
     vis.update(extract_relurl(repo))
     vis.update(extract_pagecopy(repo))
+    vis.update(extract_mdreset(repo))
     vis["asset_writes"] = extract_asset_writes(repo)
     vis["asset_links"] = extract_asset_links(repo, nav)
     vis["aliases"], page_tree_write = extract_aliases(repo)
@@ -1180,7 +1535,7 @@ def to_lean(d: dict) -> str:
     L = ["/- GENERATED by translate/c09.py from ford/output.py, ford/sourceform.py, ford/fortran_project.py, ford/utils.py, ford/settings.py,",
          "   ford/__init__.py, ford/templates/base.html, ford/templates/index.html - do not edit -/",
          "import FordModel.Nav", "import FordModel.Url", "import FordModel.StrLink", "import FordModel.ReadMore", "import FordModel.Relurl",
-         "import FordModel.Assets",
+         "import FordModel.Assets", "import FordModel.Footnotes", "import FordModel.Memo",
          "namespace Ford.Generated.C09",
          "open Ford Ford.Nav Ford.Url", ""]
     L.append("def navTables : Nav.Tables := {")
@@ -1259,12 +1614,28 @@ def to_lean(d: dict) -> str:
           "/-- PagetreePage.writeout: the guards of the loops over `self.obj.copy_subdir` and `self.obj.files` -/",
           "def pageTables : Assets.PageTables := { copyGuard := Assets.CopyGuard.%s, filesGuard := Assets.CopyGuard.%s }" % (
               d["copy_guard"], d["files_guard"])]
+    L += ["", "/-- the conversion sites that start from a reset Markdown converter (probed on the real pipeline) -/",
+          "def mdTables : Footnotes.Tables := { resets := %s, resetsFirst := %s }" % (
+              llist("Footnotes.Site." + x for x in d["md_resets"]), llist("Footnotes.Site." + x for x in d["md_resets_first"])),
+          "", "/-- what the registered `relurl` filter reuses an earlier result by (probed on the real callable) -/",
+          "def memoKey : Memo.Key := Memo.Key.%s" % d["memo_key"]]
     L += ["", "end Ford.Generated.C09", ""]
     return "\n".join(L)
 
 
+_CACHE: dict = {}
+
+
+def extract_cached() -> dict:
+    """the tables of the last `translate()` / `extract()` of this process (the probes run FORD once: not twice per check)"""
+    if "d" not in _CACHE:
+        _CACHE["d"] = extract()
+    return _CACHE["d"]
+
+
 def translate():
     d = extract()
+    _CACHE["d"] = d
     common.write_if_changed(common.LEAN / "FordModel" / "Generated" / "C09.lean", to_lean(d))
     return d
 
